@@ -116,4 +116,7 @@ def plan(tier, seed, rng):
     for cfg in std_configs(tier, seed):
         for ch in chunks(cases, per):
             units.append(Unit("C17", cfg, ch, ["props/c17.h"], max_success=30 if tier == "quick" else 40))
+    if tier == "thorough":
+        from vf.core import thin_units
+        units = thin_units(units, seed, 0.35, 0.1)
     return units
